@@ -6,7 +6,7 @@ import ast
 import sympy as sp
 
 from .. import units as U
-from ..anf import bose, compare
+from ..anf import bose, compare, short, is_zero
 from ..facts import (physics_seeds, qha_attr_hook, LONG, OFFD, FREQ, GAMMA, VDR, T, V, E0, E1, NAT, E, CV, QPHYS,
                      MODE_DEP, QVOL)
 from ..model import dotted_name, src, body_wo_doc, is_logging_stmt
@@ -57,7 +57,7 @@ def r_gap(ctx, model):
         same, why = compare(got, wantk, MODE_DEP)
         ctx.check(same, f"{kind}.isothermal_to_adiabatic", w,
                   expected="T*V*(3*NAT*AVG[dp/dT])^2/(9*E0*E1*CV) / (Ry/bohr^3)",
-                  found=str(sp.factor(got))[:400] if not same else "equal to the reference",
+                  found=short(got)[:400] if not same else "equal to the reference",
                   explanation=f"adiabatic-isothermal gap of the {kind} class is not T V (dP/dT)^2/(9 e_i e_j C_V): {why}",
                   key=f"{kind}.isothermal_to_adiabatic")
         v = ev.get_attr(Obj(cref), "isothermal_to_adiabatic")
@@ -74,7 +74,7 @@ def r_gap(ctx, model):
             ad, iso = ad.subs(E1, E0), iso.subs(E1, E0)
         same, why = compare(ad - iso, got, MODE_DEP)
         ctx.check(same, f"{kind}.value_adiabatic", model.where(f"{o2}.value_adiabatic", f2),
-                  expected="value_isothermal + isothermal_to_adiabatic", found=str(sp.simplify(ad - iso - got))[:300],
+                  expected="value_isothermal + isothermal_to_adiabatic", found=short(ad - iso - got)[:300],
                   explanation=f"adiabatic value of the {kind} class is not isothermal + gap: {why}", key=f"{kind}.value_adiabatic")
 
 
@@ -87,7 +87,7 @@ def r_cv(ctx, model):
     vol = ev.get_attr(ev.get_attr(ev.seeds[(LONG, "calculator")], "qha_calculator"), "volume_base")
     got = as_sym(ev.get_attr(vol, "heat_capacity"))
     want = CV / (U.Ry / U.K)
-    ctx.check(sp.simplify(got - want) == 0, "heat_capacity -> cv_tv_au", model.where(f"{QVOL}.heat_capacity", f),
+    ctx.check(is_zero(got - want), "heat_capacity -> cv_tv_au", model.where(f"{QVOL}.heat_capacity", f),
               expected="qha cv_tv_au (C_V(T,V) in Ry/K)", found=str(got),
               explanation="the volume-base heat capacity must be qha's volumetric heat capacity on the (T,V) grid in "
                           "atomic units (cv_tv_au); another field changes the gap", key="heat_capacity")
